@@ -24,6 +24,12 @@ def showRec (o : Option Rec) : String :=
   | none => "nil"
   | some r => hexOfBytes r.key ++ "=" ++ hexOfBytes r.value
 
+/-- timestamp and TTL of the record a `Get` returns -/
+def showMeta (o : Option Rec) : String :=
+  match o with
+  | none => "nil"
+  | some r => toString r.ts ++ "/" ++ toString r.ttl
+
 def showRecs (l : List (Option Rec)) : String := "[" ++ ",".intercalate (l.map showRec) ++ "]"
 
 def sortBytes (l : List Bytes) : List Bytes := sortBy blt l
@@ -230,6 +236,9 @@ def stepModel (st : St) (cmd : String) (impl : String) : St × Verdict :=
   | "get" =>
     let o := if t.closed then Outcome.err else get s (B 1) (B 2) (N 3)
     (rd (if t.closed then [] else getFetched s (B 1) (B 2) (N 3)), v (showOutcome showRec o) s!"get/{c}")
+  | "getmeta" =>
+    let o := if t.closed then Outcome.err else get s (B 1) (B 2) (N 3)
+    (rd (if t.closed then [] else getFetched s (B 1) (B 2) (N 3)), v (showOutcome showMeta o) s!"getmeta/{c}")
   | "getall" =>
     let o := if t.closed then Outcome.err else getAll s (B 1) (N 2)
     (rd (if t.closed then [] else getAllFetched s (B 1) (N 2)), v (showOutcome showRecs o) s!"getall/{c}")
